@@ -174,6 +174,7 @@ pub fn state_case_from_label(
         max_recs: if big { 40 } else { 8 },
         empty_recs: true,
         allow_zero_id: true,
+        dangling_replacement: true,
     };
     let mut facts = crate::gen::gen_facts(rng, &cfg);
     if matches!(path, PathKind::Jax | PathKind::JaxTransitive) {
@@ -247,6 +248,9 @@ pub fn structural_buckets(m: &Model, out: &mut CaseOut) {
     let max_par = m.parents.values().map(std::collections::BTreeSet::len).max().unwrap_or(0);
     if max_par > 10 {
         out.bucket("term_with_more_than_10_parents");
+    }
+    if max_par > 30 {
+        out.bucket("term_with_more_than_30_parents");
     }
     if max_par >= 2 {
         out.bucket("multi_parent");
